@@ -70,6 +70,27 @@ func IsModMethod(f *types.Func, rel, typ, name string) bool {
 	return IsMethod(f, modPkgPath(rel), typ, name)
 }
 
+// IsClientOp: f is the RegClient method of that name or the method of that name of an interface of
+// package scheme (the client's wrappers only look the scheme up and call the same-named method with
+// the same arguments, so code that has the scheme at hand may call it directly).
+func IsClientOp(f *types.Func, name string) bool {
+	if f == nil || f.Name() != name {
+		return false
+	}
+	if IsModMethod(f, ".", "RegClient", name) {
+		return true
+	}
+	if f.Pkg() == nil || f.Pkg().Path() != modPkgPath("scheme") {
+		return false
+	}
+	sig, ok := f.Type().(*types.Signature)
+	if !ok || sig.Recv() == nil {
+		return false
+	}
+	_, isIface := sig.Recv().Type().Underlying().(*types.Interface)
+	return isIface
+}
+
 // IsModFunc is IsFunc for a module-relative package path.
 func IsModFunc(f *types.Func, rel, name string) bool {
 	return IsFunc(f, modPkgPath(rel), name)
@@ -221,8 +242,49 @@ func Guards(b *ssa.BasicBlock) []Guard {
 				g := Guard{Cond: ifi.Cond, Polarity: k == 0, If: ifi}
 				out = append(out, g)
 				out = append(out, impliedGuards(g, 0)...)
+				out = append(out, phiGuards(g, 0)...)
 			}
 		}
+	}
+	return out
+}
+
+// phiGuards: the branch condition is a short-circuit value (`a && b`, `a || b` lowered to a bool phi).
+// When every edge of the phi but one carries the constant opposite to the truth taken, control came
+// through that one edge: its value has the truth taken and everything that guards its predecessor
+// block held as well.
+func phiGuards(g Guard, depth int) []Guard {
+	if depth > 3 {
+		return nil
+	}
+	c, pol := StripNot(g.Cond, g.Polarity)
+	ph, ok := c.(*ssa.Phi)
+	if !ok {
+		return nil
+	}
+	live := -1
+	for i, e := range ph.Edges {
+		if b, isConst := ConstBool(e); isConst {
+			if b == pol {
+				return nil // a constant edge with the truth taken: nothing is known
+			}
+			continue
+		}
+		if live >= 0 {
+			return nil
+		}
+		live = i
+	}
+	if live < 0 {
+		return nil
+	}
+	pred := ph.Block().Preds[live]
+	var out []Guard
+	sub := Guard{Cond: ph.Edges[live], Polarity: pol, If: g.If}
+	out = append(out, sub)
+	out = append(out, phiGuards(sub, depth+1)...)
+	for _, pg := range Guards(pred) {
+		out = append(out, pg)
 	}
 	return out
 }
@@ -479,13 +541,72 @@ func boolPhisOfInterest(fn *ssa.Function) map[*ssa.Phi]bool {
 	return m
 }
 
+// cmpPhis: the non-bool phis of fn that branches compare with one constant (`msg := ""; …; if msg != ""`),
+// with that constant. The environment records for them whether the phi equals the constant.
+var cmpPhiCache = map[*ssa.Function]map[*ssa.Phi]*ssa.Const{}
+
+func cmpPhis(fn *ssa.Function) map[*ssa.Phi]*ssa.Const {
+	if m, ok := cmpPhiCache[fn]; ok {
+		return m
+	}
+	m := map[*ssa.Phi]*ssa.Const{}
+	bad := map[*ssa.Phi]bool{}
+	for _, b := range fn.Blocks {
+		ifi, ok := lastInstr(b).(*ssa.If)
+		if !ok {
+			continue
+		}
+		c, _ := StripNot(ifi.Cond, true)
+		ph, k := cmpPhiOf(c)
+		if ph == nil {
+			continue
+		}
+		if old, had := m[ph]; had && !sameConst(old, k) {
+			bad[ph] = true
+		}
+		m[ph] = k
+	}
+	for ph := range bad {
+		delete(m, ph)
+	}
+	cmpPhiCache[fn] = m
+	return m
+}
+
+func sameConst(a, b *ssa.Const) bool {
+	if a.Value == nil || b.Value == nil {
+		return a.Value == nil && b.Value == nil
+	}
+	return a.Value.Kind() == b.Value.Kind() && constant.Compare(a.Value, token.EQL, b.Value)
+}
+
+// cmpPhiOf: c is `phi == K` or `phi != K` (either operand order) for a non-bool phi and a constant.
+func cmpPhiOf(c ssa.Value) (*ssa.Phi, *ssa.Const) {
+	bo, ok := c.(*ssa.BinOp)
+	if !ok || (bo.Op != token.EQL && bo.Op != token.NEQ) {
+		return nil, nil
+	}
+	if ph, ok := bo.X.(*ssa.Phi); ok {
+		if k, ok := bo.Y.(*ssa.Const); ok {
+			return ph, k
+		}
+	}
+	if ph, ok := bo.Y.(*ssa.Phi); ok {
+		if k, ok := bo.X.(*ssa.Const); ok {
+			return ph, k
+		}
+	}
+	return nil, nil
+}
+
 // enter computes the environment after entering block b from pred with environment env.
 func (e phiEnv) enter(b, pred *ssa.BasicBlock, assume map[ssa.Value]bool) phiEnv {
 	if pred == nil {
 		return e
 	}
 	interest := boolPhisOfInterest(b.Parent())
-	if len(interest) == 0 {
+	cmps := cmpPhis(b.Parent())
+	if len(interest) == 0 && len(cmps) == 0 {
 		return e
 	}
 	idx := -1
@@ -515,6 +636,27 @@ func (e phiEnv) enter(b, pred *ssa.BasicBlock, assume map[ssa.Value]bool) phiEnv
 		ph, ok := in.(*ssa.Phi)
 		if !ok {
 			break
+		}
+		if k, isCmp := cmps[ph]; isCmp && idx >= 0 && idx < len(ph.Edges) {
+			switch ev := ph.Edges[idx].(type) {
+			case *ssa.Const:
+				set(ph, sameConst(ev, k), true)
+			case *ssa.Phi:
+				cur := e
+				if out != nil {
+					cur = out
+				}
+				if k2, ok := cmps[ev]; ok && sameConst(k, k2) && ev != ph {
+					if qv, known := cur[ev]; known {
+						set(ph, qv, true)
+						continue
+					}
+				}
+				set(ph, false, false)
+			default:
+				set(ph, false, false)
+			}
+			continue
 		}
 		if !interest[ph] || idx < 0 || idx >= len(ph.Edges) {
 			continue
@@ -600,6 +742,14 @@ func (r Reach) walkFrom(b *ssa.BasicBlock, from int, pred0 *ssa.BasicBlock, seen
 			}
 			if v, ok := r.Assume[c]; ok {
 				known, kv = true, v == pol
+			}
+			if ph, k := cmpPhiOf(c); ph != nil && !known {
+				if k0, isCmp := cmpPhis(it.b.Parent())[ph]; isCmp && sameConst(k0, k) {
+					if eq, ok := it.env[ph]; ok {
+						truth := eq == (c.(*ssa.BinOp).Op == token.EQL)
+						known, kv = true, truth == pol
+					}
+				}
 			}
 		}
 		for si, s := range it.b.Succs {
